@@ -107,6 +107,14 @@ int run_c01(const Args& a, Recorder& rec) {
                         if (!rec.within(std::abs(g2 - ref.v), tol, kase)) rec.violation(std::string("C01:value-container:") + (i == j ? "diagonal" : "offdiagonal"), "GFContainer G_ij(iw_n) differs from the exact-diagonalisation value", kase + " n=" + std::to_string(n));
                     }
                     if (refmax > 1e-6 && G1.isVanishing()) rec.violation("C01:vanishing", "isVanishing() is true for a non-vanishing component", kase);
+                    // copies: a copy of a computed object, a copy on which the documented prepare()/compute() are called again, a copy of a copy taken
+                    // from the container, and a copy made between prepare() and compute() all return the value of the original
+                    { GreensFunction K1(G1); GreensFunction K2(G1); K2.prepare(); K2.compute(); GreensFunction K3(G2); GreensFunction K4(K3); K4.prepare(); K4.compute();
+                      GreensFunction P0(*P.S, *P.H, *C[i], *CX[j], *P.rho); P0.prepare(); GreensFunction K5(P0); K5.compute();
+                      GreensFunction* ks[5] = { &K1, &K2, &K3, &K4, &K5 }; const char* kn[5] = { "copy", "copy+prepare+compute", "copy-of-container-element", "copy-of-copy+prepare+compute", "copy-of-prepared+compute" };
+                      for (int q = 0; q < 5; ++q) for (long n : { -1L, 0L, 2L }) { rec.evaluations++; cd v = (*ks[q])(n), o = (q == 2 || q == 3) ? G2(n) : G1(n);
+                          if (std::abs(v - o) > 1e-12 * (1 + std::abs(o))) { rec.violation(std::string("C01:copy:") + kn[q], "a copied Green's function returns a different value from the object it was copied from", kase + " n=" + std::to_string(n)); break; }
+                          if (ks[q]->getIndex(0) != (unsigned)i || ks[q]->getIndex(1) != (unsigned)j || ks[q]->isVanishing() != G1.isVanishing()) { rec.violation(std::string("C01:copy:") + kn[q], "a copied Green's function has other indices / another isVanishing() than its original", kase); break; } } }
                 }
             }
         }
